@@ -4,7 +4,8 @@
    dedupSeriesIterator with its constants regenerated from pkg/dedup/iter.go). *)
 From Coq Require Import ZArith List Bool NArith Sorting.Sorted Permutation.
 Import ListNotations.
-From Verif Require Import Lib.Corr Gen.C04 Model.C04 Proofs.C04 Proofs.C04_Total Proofs.C04_Cuts Proofs.C04_Main.
+From Verif Require Import Lib.Corr Gen.C04 Model.C04 Model.C04_Csi Model.C04_Facts
+  Proofs.C04 Proofs.C04_Total Proofs.C04_Cuts Proofs.C04_Main Proofs.C04_Csi Proofs.C04_Facts Proofs.C04_Pred Proofs.C04_Plain.
 Open Scope Z_scope.
 
 (* overlapSplitSet: every chunk of a series lands in exactly one pseudo-replica
@@ -35,6 +36,20 @@ Theorem C04_no_dedup_identity : forall mint maxt po out,
   out = map (fun s => (fst s, in_range mint maxt (chunk_iter (snd s)))) po.
 Proof. exact select_plain. Qed.
 Print Assumptions C04_no_dedup_identity.
+
+(* Deduplication off with OVERLAPPING pieces: for any number of series, each
+   handed over with chunks that are arbitrary pieces (overlapping, nested,
+   duplicated — e.g. one replica served by two stores with overlapping time
+   ranges) of its strictly increasing samples L, sorted by MinTime and together
+   holding every sample, Select returns the series with exactly L inside
+   [mint, maxt]. (With deduplication ON the same input loses samples:
+   C04_overlapping_cuts_refuted.) *)
+Theorem C04_no_dedup_overlapping_pieces : forall mint maxt items,
+  Forall pitem_ok items ->
+  select mint maxt false (map (fun x => (p_lbl x, p_cs x)) items)
+  = Some (map (fun x => (p_lbl x, in_range mint maxt (p_L x))) items).
+Proof. exact select_plain_pieces. Qed.
+Print Assumptions C04_no_dedup_overlapping_pieces.
 
 (* The penalty algorithm (any number of pseudo-replicas, left-nested as in
    dedupSeries.Iterator, any penalties): when the first stream w0 is strictly
@@ -73,6 +88,52 @@ Theorem C04_identical_replicas : forall mint maxt items,
   = Some (map (fun x => (i_lbl x, in_range mint maxt (i_L x))) items).
 Proof. exact select_identical_replicas. Qed.
 Print Assumptions C04_identical_replicas.
+
+(* What the check evaluates, for one logical series with identical replicas and
+   non-overlapping cuts: the model's output (one series, the samples in range)
+   passes the correspondence check against any proxy output that passes the proxy
+   relation, and satisfies the property's predicate pred_ok. So on such inputs
+   "corr_ok everywhere" means the implementation's own output satisfies pred_ok. *)
+Theorem C04_single_series_corr_and_pred : forall mint maxt s cs L,
+  l_reps s <> [] -> Forall (fun r => r_samples r = L) (l_reps s) ->
+  item_ok (mkItem (l_labels s) L (map r_chunks (l_reps s)) cs) ->
+  nodup_samples cs = true ->
+  let out := [(l_labels s, in_range mint maxt L)] in
+  corr_ok (CDedup mint maxt [s] [(l_labels s, cs)] out) = true
+  /\ pred_ok (CDedup mint maxt [s] [(l_labels s, cs)] out) = true.
+Proof. exact single_series_checks. Qed.
+Print Assumptions C04_single_series_corr_and_pred.
+
+(* chunkSeriesIterator as the Go code implements it (XOR chunk iterators, index
+   into the chunk list, lastVal, mutually recursive Next / Seek: Model/C04_Csi.v)
+   refines the stream-level model used above: from any well-formed state, with
+   fuel 2*size+1 resp. 2*size+2 (so it terminates), Next moves to the next
+   element of the stream [rem] and Seek(t) to the first element >= t of the
+   current sample followed by [rem]; the initial state's stream is
+   Model.C04.chunk_iter. Holds for ANY chunk lists (overlapping, nested, unsorted). *)
+Theorem C04_chunk_iterator_next : forall s,
+  W s -> exists s' v, cnext (2 * size s + 1) s = Some (s', v) /\ next_spec s s' v.
+Proof. exact csi_next_correct. Qed.
+Print Assumptions C04_chunk_iterator_next.
+
+Theorem C04_chunk_iterator_seek : forall s t,
+  W s -> MinT < t -> exists s' v, cseek (2 * size s + 2) t s = Some (s', v) /\ seek_spec t s s' v.
+Proof. exact csi_seek_correct. Qed.
+Print Assumptions C04_chunk_iterator_seek.
+
+Theorem C04_chunk_iterator_initial : forall cs c r,
+  map csamples cs = c :: r -> above c -> Forall above r ->
+  exists s0, csi_new (map csamples cs) = Some s0 /\ W s0 /\ all s0 = chunk_iter cs.
+Proof. exact csi_new_all. Qed.
+Print Assumptions C04_chunk_iterator_initial.
+
+(* Tie T: the statement skeletons of overlapSplitSet.Next, dedupSeriesIterator.Next/Seek,
+   boundedSeriesIterator.Next/Seek, dedupSeriesSet.next, chunkSeriesIterator.Next/Seek
+   and the dedup-related steps of querier.selectFn, regenerated from the Go source
+   on every run, are the ones the model transcribes. *)
+Theorem C04_source_skeleton : facts_ok = true.
+Proof. exact facts_hold. Qed.
+Print Assumptions C04_source_skeleton.
 
 (* REFUTED for overlapping cuts: one replica whose 11 samples (15 s apart) sit
    on two stores with overlapping time ranges — chunks [0..60000] and
@@ -141,6 +202,36 @@ Proof.
               repeat (constructor; [eexists; eexists; repeat split; vm_compute; reflexivity|]); constructor]|]).
     constructor.
   - repeat split; vm_compute; reflexivity.
+Qed.
+
+(* the sidecar + store-gateway layout of the refutation, read with dedup OFF, is fine *)
+Example C04_nonvacuous_pieces : pitem_ok (mkP [] ex_L ex_cs)
+  /\ select (-1000000) 1000000 false [([], ex_cs)] = Some [([], ex_L)].
+Proof.
+  split; [|vm_compute; reflexivity].
+  assert (HS : SS ex_L).
+  { unfold SS, ex_L. repeat (constructor; [|repeat (constructor; [reflexivity|])]); constructor. }
+  split; [split; [exact HS|vm_compute; repeat constructor]|].
+  split; [repeat constructor; vm_compute; discriminate|].
+  split.
+  - repeat (constructor; [split; [eexists; eexists; repeat split; vm_compute; reflexivity|vm_compute; reflexivity]|]).
+    constructor.
+  - intros y Hy. vm_compute in Hy.
+    repeat (destruct Hy as [<-|Hy];
+            [first [ exists (mkChunk 0 60000 (firstn 5 ex_L)); split; [left; reflexivity | vm_compute; tauto]
+                   | exists (mkChunk 45000 150000 (skipn 3 ex_L)); split; [right; left; reflexivity | vm_compute; tauto] ] |]).
+    contradiction.
+Qed.
+
+(* the state machine on nested / overlapping chunks: [1..5], [2,3] (skipped), [4,6] *)
+Example C04_nonvacuous_csi :
+  let cs := [[(1,1);(2,2);(3,3);(4,4);(5,5)]; [(2,2);(3,3)]; [(4,4);(6,6)]] in
+  exists s0, csi_new cs = Some s0 /\ W s0 /\ all s0 = [(1,1);(2,2);(3,3);(4,4);(5,5);(6,6)]
+    /\ exists s1 , cseek 40 6 s0 = Some (s1, true) /\ cur_sample s1 = (6,6).
+Proof.
+  eexists. split; [reflexivity|]. split.
+  - repeat split; simpl; try (repeat constructor; vm_compute; reflexivity); try (vm_compute; discriminate).
+  - split; [vm_compute; reflexivity|]. eexists. split; vm_compute; reflexivity.
 Qed.
 
 Example C04_nonvacuous_split :
